@@ -30,6 +30,7 @@ type vfGhost struct {
 	resets    int // metrics.Reset calls
 	stateIn   []cbState
 	recoverAt time.Time // instant of the last transition into recovering
+	ramp      int
 }
 
 var vfG *vfGhost
@@ -77,6 +78,11 @@ func vfNewBreaker(g *vfGhost) *CircuitBreaker {
 	verifStub("github.com/vulcand/oxy/v2/memmetrics.NewRTMetrics", func(opts []any) (*memmetrics.RTMetrics, error) { return &memmetrics.RTMetrics{}, nil })
 	verifStub("(*github.com/vulcand/oxy/v2/memmetrics.RTMetrics).Record", func(m *memmetrics.RTMetrics, code int, d time.Duration) { vfG.records++ })
 	verifStub("(*github.com/vulcand/oxy/v2/memmetrics.RTMetrics).Reset", func(m *memmetrics.RTMetrics) { vfG.resets++ })
+	// The ramp decision is C12's subject (VerifC12*): here its outcome is an arbitrary bool.
+	verifStub("(*github.com/vulcand/oxy/v2/cbreaker.ratioController).allowRequest", func(r *ratioController) bool {
+		vfG.ramp++
+		return verifBool(verifName("allow", vfG.ramp))
+	})
 	mt, err := memmetrics.NewRTMetrics()
 	verifAssert("metrics-ok", err == nil)
 	cb := &CircuitBreaker{m: &sync.RWMutex{}, next: g, fallback: defaultFallback, log: &utils.NoopLogger{}, metrics: mt}
@@ -100,6 +106,7 @@ func vfNewBreaker(g *vfGhost) *CircuitBreaker {
 func vfArrive(g *vfGhost, tag string) {
 	cb := g.cb
 	s0, until0 := cb.state, cb.until
+	trip0 := g.tripAt // nested requests may trip again before we get to check the arrival
 	now := clock.Now().UTC()
 	before := g.entered
 	nIn := len(g.stateIn)
@@ -115,12 +122,14 @@ func vfArrive(g *vfGhost, tag string) {
 	okA := s1 == s0 || (s0 == stateTripped && s1 == stateRecovering) || (s0 == stateRecovering && s1 == stateStandby)
 	verifAssert("arrival-transition-legal", okA)
 	if s0 == stateTripped {
-		verifAssert("until-is-trip-plus-fallback", until0.Equal(g.tripAt.Add(cb.fallbackDuration)))
-		if now.Before(g.tripAt.Add(cb.fallbackDuration)) {
+		verifAssert("until-is-trip-plus-fallback", until0.Equal(trip0.Add(cb.fallbackDuration)))
+		if now.Before(trip0.Add(cb.fallbackDuration)) {
 			verifAssert("tripped-shields-backend", !passed)
 			verifAssert("tripped-answers-fallback", verifAnd(len(rec.Codes) == 1, rec.code(0) == http.StatusServiceUnavailable))
 			verifAssert("tripped-stays-tripped", verifAnd(cb.state == stateTripped, cb.until.Equal(until0)))
-		} else {
+			verifAssert("tripped-no-transition", s1 == stateTripped)
+		} else if now.After(trip0.Add(cb.fallbackDuration)) {
+			// after the fallback period traffic is re-admitted gradually (C12): recovery starts
 			verifAssert("fallback-elapsed-starts-recovery", s1 == stateRecovering)
 		}
 	}
@@ -193,11 +202,15 @@ func VerifC05History() {
 	cb.onTripped, cb.onStandby = onT, onS
 	k := verifParam("k")
 	// work partition over the first choices (each job explores one share of the paths)
-	part := verifParam("part")
-	verifAssume(verifBool("bad0") == (part&1 != 0))
-	verifAssume(verifBool("overlap0") == (part&2 != 0))
-	verifAssume(verifBool("cond1") == (part&4 != 0))
-	verifAssume(verifBool("bad1") == (part&8 != 0))
+	part, parts := verifParam("part"), verifParam("parts")
+	verifAssume(verifBool("cond1") == (part&1 != 0))
+	verifAssume(verifBool("cond2") == (part&2 != 0))
+	if parts > 4 {
+		verifAssume(verifBool("bad0") == (part&4 != 0))
+	}
+	if parts > 8 {
+		verifAssume(verifBool("overlap0") == (part&8 != 0))
+	}
 	for step := 0; step < k; step++ {
 		_ = verifAdvance(verifName("gap", step), 1<<41)
 		vfArrive(g, verifName("req", step))
